@@ -27,8 +27,8 @@ func init() {
 			"against generated registry metadata (0..3 SPSSODescriptors x 0..4 ACS endpoints with bindings POST/Redirect/Artifact/SOAP/unknown, duplicate and negative indices, isDefault nil/true/false, duplicate locations), under several MaxIssueDelay settings; plus IdP-initiated launches on the same metadata. " +
 			"Oracle: Validate()==nil => not stale, version 2.0, Destination absent or SSO URL, issuer looked up and found in the registry (observed at the stub), ACSEndpoint is a registered (binding, location, index) triple and equals the independent precedence function; ServeSSO / ServeIDPInitiated form action is a registered location. Non-trivial = request decoded and reached Validate; distinct by request vector x metadata shape.",
 		Assumptions: []string{"future-dated requests are not judged (one-sided freshness)", "when the independent selection function finds no endpoint but the library does, only registration of the chosen endpoint is judged"},
-		FloorQuick:  5000,
-		FloorThor:   100000,
+		FloorQuick:  3000,
+		FloorThor:   10000,
 		Run:         runC05,
 		LevelText:   "All single deviations and seeded combinations of request fields against generated multi-descriptor / multi-endpoint registry metadata, with +-1ms probes of the freshness limit under several tolerance settings; every success is compared with an independently written endpoint-precedence function and with registry lookups observed at the stub provider. Held-on-observed.",
 		LevelNote:   "Trusts the harness's selection function (30 lines, written from the statement) and x/net/html for reading the emitted form.",
